@@ -5,6 +5,8 @@ import Driver.Ops.Write
 import Driver.Ops.Clones
 import Driver.Ops.Paths
 import Driver.Ops.Text
+import Driver.Ops.Zc
+import Driver.Ops.Align
 /- Dispatch table: op-name prefix → handler (model evaluation → canonical response line).
    One file per stream under `Driver/Ops/`; register it here. -/
 
@@ -16,7 +18,9 @@ def handlers : List (String × (String → Args → Option String)) :=
     ("write.", opWrite),
     ("clones.", opClones),
     ("paths.", opPaths),
-    ("text.", opText) ]
+    ("text.", opText),
+    ("zc.", opZc),
+    ("align.", opAlign) ]
 
 def dispatch (op : String) (a : Args) : String :=
   match handlers.find? (fun h => op.startsWith h.1) with
